@@ -18,7 +18,7 @@ var NetFaultKinds = []string{
 
 // DiskAssistedNetKinds are network faults whose author also controls the machine's disk (kept apart from
 // NetFaultKinds so that recorded tapes keep their meaning).
-var DiskAssistedNetKinds = []string{"forge-record+cached-leaf"}
+var DiskAssistedNetKinds = []string{"forge-record+cached-leaf", "negative-record-id"}
 
 // BenignNetKinds are legal behaviours of an honest network/server.
 var BenignNetKinds = []string{"extra-sig", "partial-404", "extra-head-lines"}
@@ -76,8 +76,8 @@ func (w *World) applyNetFault(c *ClientInfo, f *Fault, path string, data []byte,
 		}
 		return data, err
 	}
-	if err != nil {
-		return data, err // nothing to corrupt
+	if err != nil && !(f.Kind == "swap" && isLookup) {
+		return data, err // nothing to corrupt (a dishonest network can still answer a lookup the log has no record for)
 	}
 	out := append([]byte(nil), data...)
 	what := ""
@@ -165,7 +165,7 @@ func (w *World) applyNetFault(c *ClientInfo, f *Fault, path string, data []byte,
 		}
 		out = append([]byte(nil), old[int(f.A%uint64(len(old)-1))]...)
 		what = "replay of an earlier answer"
-	case "forge-record", "forge-record-other-id", "forge-record+leaf", "forge-record+cached-leaf", "forge-chain-wrongkey", "forge-chain-unsigned", "unsigned-head", "head-text-tamper", "craft-append":
+	case "forge-record", "forge-record-other-id", "forge-record+leaf", "forge-record+cached-leaf", "negative-record-id", "forge-chain-wrongkey", "forge-chain-unsigned", "unsigned-head", "head-text-tamper", "craft-append":
 		if !isLookup {
 			return data, err
 		}
@@ -189,6 +189,10 @@ func (w *World) applyNetFault(c *ClientInfo, f *Fault, path string, data []byte,
 				c.ForgedLeaf = map[int64]ref.Hash{}
 			}
 			c.ForgedLeaf[id] = ref.LeafHash([]byte(forged))
+		case "negative-record-id":
+			// the genuine record and head, but the record number is negative (every non-positive number
+			// maps to the position of record 0)
+			out = append([]byte(ref.FormatRecordMsg(-1-int64(f.A%9), text)), rest...)
 		case "forge-record+cached-leaf":
 			// the attacker also controls the disk: the leaf tile that holds the record is planted in the
 			// machine's cache with the forged record's hash in place of the true one (every other hash in
